@@ -102,9 +102,15 @@ def run_r2(chk: Check, prog: Program, S: Summaries) -> None:
             it.events.append(("phase", "clone"))
             return it.call_function(m, [node], {})
 
-        for p in explore(prog, body, {"max_updepth": 1}):
+        sides = [False, True] if prog.is_subclass(k, "UnaryExpression") else [False]
+        paths = []
+        for col in sides:
+            for p in explore(prog, body, {"max_updepth": 1, "child_on_left": col}):
+                p.col = col
+                paths.append(p)
+        for p in paths:
             it = p.interp
-            label = f"{k}.clone(): {p.cond}"
+            label = f"{k}.clone() [operand on the {'left' if p.col else 'right'}]: {p.cond}"
             key = f"C13.R2:{k}"
             where = m.where
             if p.outcome != "return":
